@@ -40,9 +40,11 @@ def main(tier):
     elems, singles, nested, pairs, rnd = gen(tier, chk.seed)
     values = cases.coll_values()
     differs = optcorr.values_differ(values)
-    optcorr.run(chk, "opt/singles", singles, cfg, differs)
-    optcorr.run(chk, "opt/nested", nested, cfg, differs)
-    optcorr.run(chk, "opt/pairs", pairs, cfg, differs)
+    optcorr.run(chk, "opt/singles", singles, cfg, differs, share=True)
+    optcorr.run(chk, "opt/nested", nested, cfg, differs, share=True)
+    optcorr.run(chk, "opt/pairs", pairs, cfg, differs, share=True)
+    rep_atoms = [("subset", "2", "4"), ("subset", "4", "6"), ("subset", "2", "4", "6"), ("superset", "2"), ("rsubset", "2", "4"), ("all", ("ge", "2")), ("all", ("le", "4")), ("any", ("eq", "2")), ("any", ("ge", "4")), "empty"]
+    optcorr.run(chk, "opt/repeated-atom", list(cases.repeat_shapes(rep_atoms)), cfg, differs, share=True)
     optcorr.run(chk, "opt/random-shared", rnd, cfg, differs, share=True)
     evalcorr.run(chk, "eval/quantified", singles + nested[:60], values)
     chk.rule = (
@@ -65,9 +67,11 @@ def replay(path):
         print(json.dumps(d, indent=1))
         return 1
     sxp = S.parse1(d["input"])
-    p = lift.lower(sxp)
+    p = lift.lower(sxp, {})
+    j = optcorr.values_differ(cases.coll_values())
+    st = j.before(p, sxp)
     o = optimize(p)
-    w = optcorr.values_differ(cases.coll_values())(p, o, sxp)
+    w = j.after(st, p, o, sxp)
     print("input    :", d["input"], "=", repr(p))
     print("optimized:", repr(o))
     print("differs  :", w)
